@@ -1,6 +1,6 @@
 \* what if Extract joined the raw name and tested containment with a string prefix (seeded C20-4)?  expected: Containment
 \* violated by a sibling of the extract directory whose name starts with its base name (../out2)
-CONSTANTS TitleClean = "rooted" ExtractGuard = "strprefix" LinkPolicy = "skip" DeleteValidates = TRUE MaxFull = 1 MaxCore = 1
+CONSTANTS TitleClean = "rooted" ExtractGuard = "strprefix" Whiteout = "none" LinkPolicy = "skip" DeleteValidates = TRUE MaxFull = 1 MaxCore = 1
   Eps = {"tar"}
 SPECIFICATION Spec
 INVARIANTS Containment
